@@ -18,6 +18,11 @@ import re
 from .common import *
 
 VIEW = 'norm'
+# the objective f + sum w*g*g is built with the crate's own arithmetic: `&Parameter * Function`, `Function * Function`,
+# `Function + Function`.  C09 therefore re-decides the C02 rule families those operators go through (a Mul kernel that
+# merges terms under colliding keys by overwriting breaks g*g although nothing in the penalty methods changed)
+RELIES_ON = {'C02': ['C02.keys', 'C02.kernel', 'C02.dispatch',
+                     'C02.deleg/&v1::Parameter_Mul_v1::Function', 'C02.deleg/v1::Function_Mul_v1::Function', 'C02.deleg/v1::Function_Add_v1::Function']}
 
 INST = 'v1::Instance'
 CARRIED = ['description', 'decision_variables', 'sense', 'constraint_hints', 'decision_variable_dependency']
@@ -132,6 +137,10 @@ def seq_sources(body, op, in_order=True, crossed=None, acc=(), depth=24):
             return seq_sources(body, rv['ops'][0], in_order, crossed, fs, depth - 1)
         if rv['k'] == 'ref':
             return seq_sources(body, {'k': 'copy', 'pl': rv['pl']}, in_order, crossed, fs, depth - 1)
+        if rv['k'] == 'agg' and rv['adt'].endswith('ops::RangeFrom') and not fs:
+            # `(k..)`: an unbounded counter.  Zipped with a sequence it numbers the elements like `enumerate` and neither
+            # drops nor reorders any: no leaf of its own
+            crossed.add('enumerate'); return []
         if rv['k'] == 'agg' and fs and fs[0][1] in rv.get('fields', []):
             # field of a struct literal: what the literal put there
             return seq_sources(body, agg_field_operand(d, fs[0][1]), in_order, crossed, fs[1:], depth - 1)
@@ -193,28 +202,36 @@ def innermost(loops, bb):
 
 def root_of(body, op, transparent=NEVER, depth=24, cross_proj=True):
     """(root local, fields crossed, transparent calls crossed): follows single-definition copies / refs and
-    calls matching `transparent` backwards; stops at parameters, aggregates, other calls, multiply-defined locals"""
-    fields = []; crossed = []
-    if op is None or op['k'] not in ('copy', 'move'): return None, fields, crossed
-    pl = op['pl']
+    calls matching `transparent` backwards; stops at parameters, aggregates, other calls, multiply-defined locals.
+    A value that was packed into a tuple and taken out again (`let (a, b) = (x, y);`, a helper returning a tuple that the
+    normal form inlined) is followed to what was packed."""
+    crossed = []
+    if op is None or op['k'] not in ('copy', 'move'): return None, [], crossed
+    l = op['pl']['l']; P = list(op['pl']['p'])          # P: projections still to be applied to l (innermost first)
+    fof = lambda proj: [(q['of'], q['f']) for q in proj if isinstance(q, dict) and 'f' in q]
     for _ in range(depth):
-        fields = fields_of_place(pl) + fields
-        l = pl['l']
-        if 1 <= l <= body.argc: return l, fields, crossed
+        if 1 <= l <= body.argc: return l, fof(P), crossed
         defs = _whole_defs(body, l)
-        if len(defs) != 1: return l, fields, crossed
+        if len(defs) != 1: return l, fof(P), crossed
         k, bi, d = defs[0]
         if k == 'stmt':
             rv = d['rv']
             if rv['k'] == 'use' and rv['ops'][0]['k'] in ('copy', 'move') and (cross_proj or not fields_of_place(rv['ops'][0]['pl'])):
-                pl = rv['ops'][0]['pl']; continue
-            if rv['k'] == 'ref' and (cross_proj or not fields_of_place(rv['pl'])): pl = rv['pl']; continue
-            return l, fields, crossed
+                src = rv['ops'][0]['pl']; l = src['l']; P = list(src['p']) + P; continue
+            if rv['k'] == 'ref' and (cross_proj or not fields_of_place(rv['pl'])):
+                l = rv['pl']['l']; P = list(rv['pl']['p']) + P; continue
+            if rv['k'] == 'agg' and rv['adt'] == 'tuple':
+                Q = [q for q in P if q != '*']
+                if Q and isinstance(Q[0], dict) and Q[0].get('of') == 'tuple' and Q[0].get('f', '').isdigit() and int(Q[0]['f']) < len(rv['ops']):
+                    o = rv['ops'][int(Q[0]['f'])]
+                    if o['k'] in ('copy', 'move'):
+                        l = o['pl']['l']; P = list(o['pl']['p']) + Q[1:]; continue
+            return l, fof(P), crossed
         nm = d['r'] or d['f']
         if transparent.search(T.strip_generics_tail(nm)) and d['args'] and d['args'][0]['k'] in ('copy', 'move'):
-            crossed.append(nm); pl = d['args'][0]['pl']; continue
-        return l, fields, crossed
-    return None, fields, crossed
+            crossed.append(nm); a0 = d['args'][0]['pl']; l = a0['l']; P = list(a0['p']) + P; continue
+        return l, fof(P), crossed
+    return None, fof(P), crossed
 
 
 def agg_def(body, l, adt_suffix):
@@ -596,6 +613,48 @@ def final_field_slice(ctx, body, X, f):
     return fs_backslice(ctx, body, [(X, f)])
 
 
+WHOLE_TRANSPARENT = re.compile(r'::(clone|to_vec|to_owned|into|from|into_boxed_slice|into_vec|as_ref|deref|borrow)(::<.*>)?$')
+
+
+def carried_whole(ctx, body, loops, X, f):
+    """field f of the result struct X is `self.f` as a whole — every element, none added: moved / cloned / converted, or
+    rebuilt by pushing each item of a loop over self.f on every path (a `filter`, a conditional push, a `take(n)` is not).
+    returns (ok, why)"""
+    def whole(bdy, op):
+        r, fs, _ = root_of(bdy, op, WHOLE_TRANSPARENT)
+        return r is not None and 1 <= r <= bdy.argc and [x for a_, x in fs] == [f], r
+    sv = Construction(ctx, body, X, None, None)
+    d = _whole_defs(body, X)
+    asg = sv.assignments(f)
+    op = None; where = body
+    if len(asg) == 1 and asg[0][1]['rv']['k'] == 'use': op = asg[0][1]['rv']['ops'][0]
+    elif asg: return False, 'field `%s` is assigned more than once' % f
+    elif len(d) == 1 and d[0][0] == 'stmt' and d[0][2]['rv']['k'] == 'agg': op = agg_field_operand(d[0][2], f)
+    elif len(d) == 1 and d[0][0] == 'call':
+        c = _callmap(body)[d[0][1]]; cb = crate_callee(body, c); sr = struct_ret_field(cb, f) if cb is not None else None
+        if sr is None or strong_field_defs(body, X, f): return False, 'field `%s` of the value returned by `%s` cannot be traced' % (f, c.item)
+        ok, p_ = whole(sr[0], sr[1])
+        if not ok: return False, '`%s` does not hand on its argument\'s `%s` as a whole' % (c.item, f)
+        a_ = c.args[p_ - 1] if p_ - 1 < len(c.args) else None
+        ra = root_of(body, a_, WHOLE_TRANSPARENT)[0] if a_ is not None else None
+        return (ra == 1, 'argument of `%s` is not self' % c.item)
+    if op is None: return False, 'field `%s` has no traceable initialiser' % f
+    if whole(body, op)[0]: return True, ''
+    v = vec_of(body, op)
+    if isinstance(v, int) and created_empty(body, v):
+        sites = pushes_into(body, v)
+        Ls = {id(innermost(loops, c.bb)): innermost(loops, c.bb) for c in sites}
+        if sites and len(Ls) == 1 and None not in Ls.values():
+            L = list(Ls.values())[0]
+            if not (len(L.leaves) == 1 and L.leaves[0][0] == 'field' and L.leaves[0][1][0] == 1 and [x for a_, x in L.leaves[0][1][1]] == [f]):
+                return False, 'rebuilt in a loop that does not walk self.%s alone' % f
+            okp, why = once_per_iteration(body, L, [c.bb for c in sites])
+            if not okp: return False, 'rebuilt element by element, but %s (elements are dropped or repeated)' % why
+            if not all(root_of(body, c.args[1], WHOLE_TRANSPARENT)[0] == L.item for c in sites): return False, 'rebuilt from something else than the items of self.%s' % f
+            return True, ''
+    return False, 'not self.%s moved / cloned as a whole, nor rebuilt from each of its items' % f
+
+
 class Construction:
     """a struct value of some type being built in local X: a literal `T { .. }` (also `T { a, ..base }`), or a base value
     (`T::default()`, a constructor call) completed by field assignments / setters.  Field-wise access for the rules:
@@ -799,9 +858,214 @@ def inline_closure_calls(ctx, body):
     return nb
 
 
+def open_maps_below_enumerate(ctx, body):
+    """`for (i, y) in it.map(K).enumerate()`  ->  `for (i, x) in it.enumerate() { let y = K(x); .. }`
+    (`map` / `inspect` do not change positions, so they commute with `enumerate`; the normal form only opens the closure
+    adaptors directly below the consumer.  Typical source: a helper returning `impl Iterator` that the caller enumerates.)"""
+    from .. import normalize as NZ
+    from ..facts import Body
+    N = NZ.Normalizer(ctx.F, None, True)
+    rw = NZ.Rewriter(body.d); rw.promoted_of = N._promoted_of
+    done_any = False
+    for bi in range(len(rw.blocks)):
+        b = rw.blocks[bi]; t = b['term']
+        ri = t.get('ri') or {} if t['k'] == 'call' else {}
+        if b['cleanup'] or t['k'] != 'call' or (ri.get('trait') or '') != 'std::iter::Iterator' or ri.get('item') != 'next' or t['t'] < 0: continue
+        a = t['args'][0]
+        if a['k'] not in ('move', 'copy'): continue
+        cur = a['pl']['l']; en = None
+        for _ in range(10):
+            d = rw.single_def(cur)
+            if d is None: break
+            if d[0] == 'stmt':
+                rv = d[2]['rv']
+                if rv['k'] == 'ref' and rv['pl']['p'] in ([], ['*']): cur = rv['pl']['l']; continue
+                if rv['k'] == 'use' and rv['ops'][0]['k'] in ('move', 'copy') and not rv['ops'][0]['pl']['p']: cur = rv['ops'][0]['pl']['l']; continue
+                break
+            r2 = d[2].get('ri') or {}
+            if (r2.get('trait') or '') == 'std::iter::IntoIterator' and r2.get('item') == 'into_iter' and d[2]['args'] and d[2]['args'][0]['k'] in ('move', 'copy') and not d[2]['args'][0]['pl']['p']:
+                cur = d[2]['args'][0]['pl']['l']; continue
+            if (r2.get('trait') or '') == 'std::iter::Iterator' and r2.get('item') == 'enumerate': en = d[2]
+            break
+        if en is None or en['args'][0]['k'] not in ('move', 'copy') or en['args'][0]['pl']['p']: continue
+        try:
+            base, chain = N._walk_chain(rw, en['args'][0]['pl']['l'])
+        except Exception:
+            continue
+        if not chain or any(k not in ('map', 'inspect') for k, ci, cb_ in chain): continue
+        o = t['dst']['l']; sw = t['t']; swt = rw.blocks[sw]['term']
+        if swt['k'] != 'switch': continue
+        m = dict((v, tb) for v, tb in swt['ts'])
+        if 1 not in m or 0 not in m: continue
+        some_bb, none_bb = m[1], m[0]
+        elem = NZ.SOME0 + [{'f': '1', 'of': 'tuple'}]
+        N._strip_adaptors(rw, chain)
+        entry, last, item_op, cont = N._emit_adaptors(rw, chain, NZ._mv(o, elem), t.get('span'), bi, none_bb)
+        il = rw.new_local('?')
+        rw.blocks[last]['st'].append(NZ._use(il, item_op, (t.get('span') or {}).get('lo', 0)))
+        rw.goto(last, some_bb)
+        swt['ts'] = [[v, (entry if v == 1 else tb)] for v, tb in swt['ts']]
+        NZ._subst_prefix(rw, o, elem, il, skip_blocks=set(range(entry, len(rw.blocks))))
+        done_any = True
+    if not done_any: return body
+    d = dict(rw.d); d['fn'] = body.name + '#eager'; d['parent'] = body.parent
+    nb = Body(d); nb.facts = ctx.F
+    return nb
+
+
+def open_result_combinators(ctx, body):
+    """`r.and_then(K)` / `r.map(K)` on an Option / Result with a closure: replaced by the `match` they stand for, K's body
+    in the Some / Ok arm (guards written as one combinator chain `a.with_context(..).and_then(|v| ..).and_then(|b| ..)?`
+    are then ordinary tests on ordinary paths)."""
+    from .. import normalize as NZ
+    from ..facts import Body
+    N = NZ.Normalizer(ctx.F, None, True)
+    rw = NZ.Rewriter(body.d); rw.promoted_of = N._promoted_of
+    done_any = False
+    OK0 = [{'dc': 'Ok'}, {'f': '0', 'of': 'std::result::Result::Ok'}]; ERR0 = [{'dc': 'Err'}, {'f': '0', 'of': 'std::result::Result::Err'}]
+    for bi in range(len(rw.blocks)):
+        b = rw.blocks[bi]; t = b['term']
+        if b['cleanup'] or t['k'] != 'call' or t.get('synthetic') or t['t'] < 0 or len(t['args']) != 2: continue
+        m = re.search(r'^std::(result::Result|option::Option)::<.*>::(and_then|map)::<', t['r'] or t['f'] or '')
+        if not m: continue
+        a0 = t['args'][0]
+        if a0['k'] not in ('copy', 'move') or a0['pl']['p']: continue
+        try:
+            ci = N._closure_of(rw, t['args'][1])
+        except Exception:
+            ci = None
+        if ci is None: continue
+        cd, caps = ci
+        is_res = m.group(1).startswith('result'); item = m.group(2)
+        r = a0['pl']['l']; span = t.get('span'); line = (span or {}).get('lo', 0); after = t['t']; dst = t['dst']
+        pos = OK0 if is_res else NZ.SOME0
+        pos_d, neg_d = (0, 1) if is_res else (1, 0)
+        dl = rw.new_local('isize'); okb = rw.new_block(); errb = rw.new_block(); un = rw.new_block()
+        b['st'].append(NZ._discr(dl, NZ._pl(r), line))
+        b['term'] = {'k': 'switch', 'd': NZ._mv(dl), 'ts': [[pos_d, okb], [neg_d, errb]], 'else': un}
+        if item == 'and_then':
+            e = rw.splice(cd, [NZ._const('()', 'env'), NZ._mv(r, pos)], dst, after, span, captures=caps)
+            rw.goto(okb, e)
+        else:
+            tmp = rw.new_local(cd['locals'][0]); wrap = rw.new_block()
+            e = rw.splice(cd, [NZ._const('()', 'env'), NZ._mv(r, pos)], NZ._pl(tmp), wrap, span, captures=caps)
+            rw.goto(okb, e)
+            rw.blocks[wrap]['st'].append(NZ._agg(dst, 'std::result::Result::Ok' if is_res else 'std::option::Option::Some', [NZ._mv(tmp)], line=line))
+            rw.goto(wrap, after)
+        if is_res: rw.blocks[errb]['st'].append(NZ._agg(dst, 'std::result::Result::Err', [NZ._mv(r, ERR0)], line=line))
+        else: rw.blocks[errb]['st'].append(NZ._agg(dst, 'std::option::Option::None', [], line=line))
+        rw.goto(errb, after)
+        done_any = True
+    if not done_any: return body
+    d = dict(rw.d); d['fn'] = body.name + '#eager'; d['parent'] = body.parent
+    nb = Body(d); nb.facts = ctx.F
+    return nb
+
+
+def open_counter_loops(ctx, body):
+    """`let mut i = a; while i < n { ..; i += 1; }`  ->  the body is entered through `next()` of the range `a..n` and reads the
+    item instead of the counter (the counter and its test stay behind as dead code).  Conditions: i has exactly the initial
+    definition outside and `i = i + 1` inside the loop, the increment is passed on every way round and nothing reads i after
+    it in the same round, n is not changed inside the loop, the header leaves the loop exactly when `i < n` is false."""
+    from .. import normalize as NZ
+    from ..facts import Body
+    rw = None; done_any = False
+    loops = body.loops()
+    for h, blocks in sorted(loops.items()):
+        t = body.blocks[h]['term']
+        if t['k'] != 'switch' or t['d']['k'] not in ('copy', 'move') or t['d']['pl']['p']: continue
+        cdefs = [d for d in _whole_defs(body, t['d']['pl']['l'])]
+        if len(cdefs) != 1 or cdefs[0][0] != 'stmt' or cdefs[0][1] != h: continue
+        rv = cdefs[0][2]['rv']
+        if rv['k'] != 'bin' or rv['op'] not in ('Lt', 'Gt', 'Ne'): continue
+        a_, b_ = rv['ops']
+        if rv['op'] == 'Gt': a_, b_ = b_, a_
+        def src(o):
+            if o['k'] not in ('copy', 'move') or o['pl']['p']: return None
+            l = o['pl']['l']
+            for _ in range(4):
+                d = _whole_defs(body, l)
+                if len(d) == 1 and d[0][0] == 'stmt' and d[0][2]['rv']['k'] == 'use' and d[0][2]['rv']['ops'][0]['k'] in ('copy', 'move') and not d[0][2]['rv']['ops'][0]['pl']['p']:
+                    l = d[0][2]['rv']['ops'][0]['pl']['l']
+                else: break
+            return l
+        i = src(a_); n = src(b_)
+        if i is None or n is None or not re.fullmatch(r'[iu](8|16|32|64|size)', body.locals[i]): continue
+        idefs = _whole_defs(body, i)
+        inside = [d for d in idefs if d[1] in blocks]; outside = [d for d in idefs if d[1] not in blocks]
+        if len(inside) != 1 or len(outside) != 1 or inside[0][0] != 'stmt' or any(d[1] in blocks for d in _whole_defs(body, n)): continue
+        # the increment: `i = i + 1` (plain or overflow-checked)
+        irv = inside[0][2]['rv']; inc_stmts = [inside[0][2]]
+        def plus_one_of_i(rv_):
+            return rv_['k'] == 'bin' and rv_['op'] in ('Add', 'AddWithOverflow') and src(rv_['ops'][0]) == i and rv_['ops'][1]['k'] == 'const' and re.match(r'^1_', rv_['ops'][1]['v'])
+        if plus_one_of_i(irv): pass
+        elif irv['k'] == 'use' and irv['ops'][0]['k'] in ('copy', 'move') and [q.get('f') for q in irv['ops'][0]['pl']['p'] if isinstance(q, dict)] == ['0']:
+            td = _whole_defs(body, irv['ops'][0]['pl']['l'])
+            if len(td) != 1 or td[0][0] != 'stmt' or td[0][1] not in blocks or not plus_one_of_i(td[0][2]['rv']): continue
+            inc_stmts.append(td[0][2])
+        else: continue
+        inc_bb = inside[0][1]
+        tt, ft = T.switch_sides(body, h, False)
+        if rv['op'] in ('Lt', 'Gt', 'Ne') and (tt not in blocks or ft in blocks): continue
+        if not T.must_pass(body, tt, {h}, {inc_bb}): continue
+        copies = {l for l in range(len(body.locals)) if l != i and src({'k': 'copy', 'pl': {'l': l, 'p': []}}) == i}
+        def reads_i(bi_):
+            blk = body.blocks[bi_]
+            for st in blk['st']:
+                if 'rv' not in st or any(st is x for x in inc_stmts) or st is cdefs[0][2]: continue
+                ops_ = list(st['rv'].get('ops', [])) + ([{'k': 'copy', 'pl': st['rv']['pl']}] if 'pl' in st['rv'] else [])
+                if any(o['k'] in ('copy', 'move') and o['pl']['l'] == i for o in ops_): return True
+            tm = blk['term']
+            return tm['k'] == 'call' and any(o['k'] in ('copy', 'move') and o['pl']['l'] == i for o in tm['args'])
+        after_inc = body.reach([x for x in body.succ(inc_bb)], stop={h})
+        if any(reads_i(b2) for b2 in after_inc if b2 in blocks and b2 != h): continue
+        # ---- rewrite
+        if rw is None: rw = NZ.Rewriter(body.d)
+        B = rw.blocks; line = body.blocks[h]['term'].get('span', {}).get('lo', 0) if isinstance(body.blocks[h]['term'].get('span'), dict) else 0
+        span = next((B[b2]['term'].get('span') for b2 in sorted(blocks) if B[b2]['term'].get('span')), None)
+        R = rw.new_local('std::ops::Range<%s>' % body.locals[i]); i2 = rw.new_local(body.locals[i])
+        # preheader: the range `i..n` as of loop entry
+        init = outside[0][2]['rv']['ops'][0] if outside[0][0] == 'stmt' and outside[0][2]['rv']['k'] == 'use' and outside[0][2]['rv']['ops'][0]['k'] == 'const' else NZ._cp(i)
+        ph = rw.new_block([NZ._agg(R, 'std::ops::Range', [dict(init), NZ._cp(n)], ['start', 'end'], line)], {'k': 'goto', 't': h})
+        def retarget(tm, old, new_):
+            if tm['k'] in ('goto', 'drop', 'assert') and tm['t'] == old: tm['t'] = new_
+            elif tm['k'] == 'call' and tm['t'] == old: tm['t'] = new_
+            elif tm['k'] == 'switch':
+                tm['ts'] = [[v, (new_ if tb == old else tb)] for v, tb in tm['ts']]
+                if tm['else'] == old: tm['else'] = new_
+        for b2 in range(len(B)):
+            if b2 not in blocks and b2 != ph and not B[b2]['cleanup']: retarget(B[b2]['term'], h, ph)
+        # header: item = next(&mut range)
+        h2 = rw.new_block(); some = rw.new_block([NZ._use(i2, NZ._cp(0), line)], {'k': 'goto', 't': tt})
+        o, some_entry = NZ.Normalizer(ctx.F, None, True)._emit_next(rw, h2, R, span, ft)
+        B[some]['st'] = [NZ._use(i2, NZ._cp(o, NZ.SOME0), line)]
+        rw.goto(some_entry, some)
+        B[h]['term'] = {'k': 'goto', 't': h2}
+        # the body reads the item
+        def sub(o_):
+            if o_['k'] in ('copy', 'move') and o_['pl']['l'] in ({i} | copies) and not any(isinstance(q, dict) and 'ix' in q for q in o_['pl']['p']):
+                return {'k': o_['k'], 'pl': {'l': i2, 'p': list(o_['pl']['p'])}}
+            return o_
+        for b2 in blocks:
+            if b2 == h: continue
+            for st in B[b2]['st']:
+                if 'rv' not in st or any(st.get('line') == x.get('line') and st['rv'] == x['rv'] and st['dst'] == x['dst'] for x in inc_stmts): continue
+                if 'ops' in st['rv']: st['rv']['ops'] = [sub(o_) for o_ in st['rv']['ops']]
+                if 'pl' in st['rv'] and st['rv']['pl']['l'] in ({i} | copies): st['rv']['pl'] = {'l': i2, 'p': list(st['rv']['pl']['p'])}
+            tm = B[b2]['term']
+            if tm['k'] == 'call': tm['args'] = [sub(o_) for o_ in tm['args']]
+            elif tm['k'] == 'switch': tm['d'] = sub(tm['d'])
+        done_any = True
+    if not done_any: return body
+    d = dict(rw.d); d['fn'] = body.name + '#eager'; d['parent'] = body.parent
+    nb = Body(d); nb.facts = ctx.F
+    return nb
+
+
 def open_up(ctx, body):
-    """the body with directly called local closures inlined and lazily mapped iterators handed to draining consumers made explicit"""
-    return eagerise(ctx, inline_closure_calls(ctx, body))
+    """the body with directly called local closures inlined, `map` below `enumerate` opened, and lazily mapped iterators
+    handed to draining consumers made explicit"""
+    return eagerise(ctx, open_maps_below_enumerate(ctx, open_result_combinators(ctx, open_counter_loops(ctx, inline_closure_calls(ctx, body)))))
 
 
 def is_mul(c):
@@ -853,6 +1117,9 @@ def check_method(ctx, name, uniform):
     for X in sorted({X for e, X in results}):
         for f in CARRIED:
             carry('C09.carry/%s/%s' % (name, f), X, f, need_fields=[(INST, f)])
+        # .. and the list of variables is carried over *completely* (not only those that are still used somewhere)
+        okw, why = carried_whole(ctx, body, loops, X, 'decision_variables')
+        ctx.check(okw, 'C09.carry/%s/decision_variables/all' % name, 'T-LOOPMUST', fn, 'decision_variables are not carried over as a whole: ' + why, body.site())
         # no active constraints in the result
         carry('C09.carry/%s/constraints' % name, X, 'constraints', not_fields=[(INST, 'constraints'), (INST, 'removed_constraints')])
         # every constraint of the input — already removed ones included — is kept as removed
@@ -860,6 +1127,14 @@ def check_method(ctx, name, uniform):
         # objective = old objective + parameter * g*g
         so = carry('C09.carry/%s/objective' % name, X, 'objective', need_fields=[(INST, 'objective'), (INST, 'constraints')],
                    need_calls=[r'ops::Add.* for v1::Function>::add|Function as std::ops::Add', r'ops::Mul'])
+        # an absent objective counts as zero and still gets the penalty: the result's objective is `Some(..)` on every path
+        # (`self.objective.map(|f| f + penalty)` leaves None in place and loses the penalty)
+        xc = construction_of(ctx, body, X, 'v1::ParametricInstance')
+        oop = xc.operand('objective') if xc is not None else None
+        orr = root_of(body, oop)[0] if oop is not None else None
+        odefs = _whole_defs(body, orr) if orr is not None and not (1 <= orr <= body.argc) else []
+        ctx.check(bool(odefs) and all(d_[0] == 'stmt' and d_[2]['rv']['k'] == 'agg' and d_[2]['rv']['adt'].endswith('Option::Some') for d_ in odefs),
+                  'C09.objective/%s/always-some' % name, 'T-CARRY', fn, 'the objective of the result is not `Some(..)` on every path (an absent objective must become the penalty alone)', body.site())
         if so is not None:
             # weighted products: a multiplication one operand of which is a Parameter
             wsites = [(c, a) for c in so.call_objs if is_mul(c) for a in c.args
@@ -917,7 +1192,9 @@ def check_method(ctx, name, uniform):
         if not uniform:
             ctx.check(L is not None and L.over_constraints, 'C09.parameters/%s/in-loop' % name, 'T-LOOPMUST', fn, 'parameter is not created inside a loop over self.constraints', body.site(bi))
             if L is None: continue
-            ss = construction_carry(ctx, 'C09.tags/%s/subscripts' % name, sv, 'subscripts', need_fields=[('v1::Constraint', 'id')])
+            # tagged with that constraint's ID: from `item.id`, and from no other field of the constraint (its own subscripts, name, ..)
+            other = [('v1::Constraint', f_) for f_ in (ctx.F.adt_fields('v1::Constraint') or []) if f_ != 'id']
+            ss = construction_carry(ctx, 'C09.tags/%s/subscripts' % name, sv, 'subscripts', need_fields=[('v1::Constraint', 'id')], not_fields=other)
             if ss is not None:
                 ctx.check(L.item in ss.locals, 'C09.tags/%s/subscripts-of-item' % name, 'T-CARRY', fn, 'subscripts do not derive from the loop\'s current constraint', body.site(bi))
             # id differs per constraint: depends on a value that changes with every iteration
@@ -970,11 +1247,11 @@ def check(ctx):
     check_method(ctx, 'penalty_method', False)
     check_method(ctx, 'uniform_penalty_method', True)
     ctx.floor('C09.cover', 16)
-    ctx.floor('C09.carry', 18)
+    ctx.floor('C09.carry', 20)
     ctx.floor('C09.fresh', 3)
     ctx.floor('C09.wrap', 6)
     ctx.floor('C09.loop', 8)
     ctx.floor('C09.pair', 2)
     ctx.floor('C09.parameters', 7)
-    ctx.floor('C09.objective', 6)
+    ctx.floor('C09.objective', 8)
     ctx.floor('C09.tags', 3)
